@@ -125,7 +125,7 @@ func Generate(r *run.Rand, o Opts) *Model {
 		}
 		if o.OddRunes && r.Chance(1, 12) {
 			// a class recorded with its type arguments (receivers declared as Vec<int> are recorded that way)
-			if alt := cn + r.Pick([]string{"<int>", "<T>", "<String,Long>"}); !used[pk+"."+alt] {
+			if alt := cn + r.Pick([]string{"<int>", "<T>", "<String>"}); !used[pk+"."+alt] {
 				cn = alt
 			}
 		}
